@@ -3741,6 +3741,42 @@ impl Action for DebugAction {
     }
 }
 
+#[cfg(feature = "Verif_Hooks")]
+#[allow(non_snake_case)]
+pub mod verif_hooks {
+    //! Add-only forwarding wrappers for out-of-crate verification harnesses (feature `Verif_Hooks`).
+    use super::*;
+    impl Fsm {
+        pub fn vh_microstep(&mut self, dm: &mut dyn Datamodel, t: &List<TransitionId>) { self.microstep(dm, t) }
+        pub fn vh_enterStates(&mut self, dm: &mut dyn Datamodel, t: &List<TransitionId>) { self.enterStates(dm, t) }
+        pub fn vh_exitStates(&mut self, dm: &mut dyn Datamodel, t: &List<TransitionId>) { self.exitStates(dm, t) }
+        pub fn vh_selectTransitions(&mut self, dm: &mut dyn Datamodel, e: &Event) -> OrderedSet<TransitionId> { self.selectTransitions(dm, e) }
+        pub fn vh_selectEventlessTransitions(&mut self, dm: &mut dyn Datamodel) -> OrderedSet<TransitionId> { self.selectEventlessTransitions(dm) }
+        pub fn vh_removeConflictingTransitions(&self, dm: &mut dyn Datamodel, t: &OrderedSet<TransitionId>) -> OrderedSet<TransitionId> { self.removeConflictingTransitions(dm, t) }
+        pub fn vh_computeExitSet(&self, dm: &mut dyn Datamodel, t: &List<TransitionId>) -> OrderedSet<StateId> { self.computeExitSet(dm, t) }
+        pub fn vh_getTransitionDomain(&self, dm: &mut dyn Datamodel, t: TransitionId) -> StateId { self.getTransitionDomain(dm, self.get_transition_by_id(t)) }
+        pub fn vh_findLCCA(&self, l: &List<StateId>) -> StateId { self.findLCCA(l) }
+        pub fn vh_getEffectiveTargetStates(&self, dm: &mut dyn Datamodel, t: TransitionId) -> OrderedSet<StateId> { self.getEffectiveTargetStates(dm, self.get_transition_by_id(t)) }
+        pub fn vh_getProperAncestors(&self, a: StateId, b: StateId) -> OrderedSet<StateId> { self.getProperAncestors(a, b) }
+        pub fn vh_isDescendant(&self, a: StateId, b: StateId) -> bool { self.isDescendant(a, b) }
+        pub fn vh_isInFinalState(&self, dm: &dyn Datamodel, s: StateId) -> bool { self.isInFinalState(dm, s) }
+        pub fn vh_mainEventLoop(&mut self, dm: &mut dyn Datamodel) { self.mainEventLoop(dm) }
+        pub fn vh_exitInterpreter(&mut self, dm: &mut dyn Datamodel) { self.exitInterpreter(dm) }
+        pub fn vh_returnDoneEvent(&mut self, d: &Option<DoneData>, dm: &mut dyn Datamodel) { self.returnDoneEvent(d, dm) }
+        pub fn vh_invoke(&mut self, dm: &mut dyn Datamodel, s: StateId, inv: &Invoke) { self.invoke(dm, s, inv) }
+        pub fn vh_cancelInvoke(&mut self, dm: &mut dyn Datamodel, id: &InvokeId, sid: SessionId) { self.cancelInvoke(dm, id, sid) }
+        pub fn vh_conditionMatch(&mut self, dm: &mut dyn Datamodel, t: TransitionId) -> bool { self.conditionMatch(dm, t) }
+    }
+    impl Transition {
+        pub fn vh_nameMatch(&self, name: &str) -> bool { self.nameMatch(name) }
+    }
+    impl GlobalData {
+        pub fn vh_internal_queue_len(&self) -> usize { self.internalQueue.data.len() }
+        pub fn vh_internal_queue_get(&self, i: usize) -> Event { *self.internalQueue.data[i].get_copy() }
+        pub fn vh_internal_queue_clear(&mut self) { self.internalQueue.clear() }
+    }
+}
+
 #[cfg(test)]
 mod tests {
     #[cfg(all(feature = "ECMAScriptModel", feature = "xml"))]
